@@ -787,6 +787,87 @@ Example welcome_page_example :
           ++ [47; 100; 101; 109; 111; 47; 34])].
 Proof. vm_compute. reflexivity. Qed.
 
+(* ================================================================ several insertion points *)
+
+Lemma shape_pushes p l : shape (pushes p l) = shape l.
+Proof. destruct l as [|t ts]; [reflexivity|]. destruct t; reflexivity. Qed.
+
+Lemma shape_app a b : shape (a ++ b) = shape a ++ shape b.
+Proof. apply map_app. Qed.
+
+Lemma mode_step_valid m c : valid_mode m -> valid_mode (mode_step m c).
+Proof.
+  destruct m as [| |q]; cbn [mode_step valid_mode]; intros H.
+  - destruct (c =? c_lt); exact I.
+  - destruct (c =? c_gt); [exact I|]. destruct (is_quote c) eqn:E; [exact E|exact I].
+  - destruct (c =? q); [exact I|exact H].
+Qed.
+
+Lemma mode_after_valid l : forall m, valid_mode m -> valid_mode (mode_after m l).
+Proof.
+  induction l as [|c l IH]; intros m H; [exact H|].
+  rewrite mode_after_cons. apply IH. apply mode_step_valid. exact H.
+Qed.
+
+(* a markup-free character neither ends the token in progress nor changes the mode, in ANY valid mode *)
+Lemma markup_free_char_inert m c :
+  valid_mode m -> c <> c_lt -> c <> c_gt -> c <> c_quot -> c <> c_apos ->
+  closes m c = false /\ mode_step m c = m.
+Proof.
+  intros Hm H1 H2 H3 H4.
+  apply Z.eqb_neq in H1. apply Z.eqb_neq in H2. pose proof H3 as H3'. pose proof H4 as H4'.
+  apply Z.eqb_neq in H3. apply Z.eqb_neq in H4.
+  destruct m as [| |q]; cbn [closes mode_step].
+  - rewrite H1. split; reflexivity.
+  - rewrite H2. unfold is_quote. rewrite H3, H4. split; reflexivity.
+  - split; [reflexivity|]. cbn [valid_mode] in Hm. unfold is_quote in Hm.
+    apply orb_true_iff in Hm. destruct Hm as [Hq|Hq]; apply Z.eqb_eq in Hq; subst q.
+    + rewrite H3. reflexivity.
+    + rewrite H4. reflexivity.
+Qed.
+
+Lemma tk_markup_free u : forall m R, valid_mode m -> markup_free u -> tk m (u ++ R) = pushes u (tk m R).
+Proof.
+  induction u as [|c u IH]; intros m R Hm Hu.
+  - cbn [app]. rewrite pushes_nil. reflexivity.
+  - cbn [app]. rewrite tk_cons.
+    destruct (Hu c (or_introl eq_refl)) as [H1 [H2 [H3 H4]]].
+    destruct (markup_free_char_inert m c Hm H1 H2 H3 H4) as [Hc Hs]. rewrite Hc, Hs.
+    rewrite IH; [apply push_pushes|exact Hm|]. intros d Hd. apply Hu. right. exact Hd.
+Qed.
+
+Lemma fill_shape segs : forall m u v, valid_mode m -> markup_free u -> markup_free v ->
+  shape (tk m (fill segs u)) = shape (tk m (fill segs v)).
+Proof.
+  induction segs as [|g segs IH]; intros m u v Hm Hu Hv; [reflexivity|].
+  unfold fill in *. cbn [flat_map]. destruct g as [s|].
+  - destruct (tk_prefix s m) as [tp [pre [_ H]]]. rewrite !H, !shape_app, !shape_pushes.
+    f_equal. apply IH; try assumption. apply mode_after_valid. exact Hm.
+  - rewrite !tk_markup_free by assumption. rewrite !shape_pushes. apply IH; assumption.
+Qed.
+
+Lemma tokenize_fill_shape segs u v :
+  markup_free u -> markup_free v -> shape (tokenize (fill segs u)) = shape (tokenize (fill segs v)).
+Proof. apply fill_shape. exact I. Qed.
+
+Lemma fill_escape_html_shape segs h1 h2 :
+  shape (tokenize (fill segs (escape_html h1))) = shape (tokenize (fill segs (escape_html h2))).
+Proof. apply fill_shape; [exact I|apply escape_html_markup_free|apply escape_html_markup_free]. Qed.
+
+Lemma markup_freeb_sound s : markup_freeb s = true -> markup_free s.
+Proof.
+  intros H c Hc. pose proof (In_forallb _ _ _ H Hc) as K. cbn beta in K.
+  apply negb_true_iff in K. repeat (apply orb_false_iff in K; destruct K as [K ?]).
+  repeat split; apply Z.eqb_neq; assumption.
+Qed.
+
+(* <a href= dquote Ins dquote > Ins </a> *)
+Example fill_example :
+  let segs := [Fix [60; 97; 32; 104; 114; 101; 102; 61; 34]; Ins; Fix [34; 62]; Ins; Fix [60; 47; 97; 62]] in
+  shape (tokenize (fill segs (escape_html [104; 34; 62; 60; 120; 62]))) = [KText; KTag; KText; KTag; KText]
+  /\ shape (tokenize (fill segs [104; 34; 62; 60; 120; 62])) <> [KText; KTag; KText; KTag; KText].
+Proof. vm_compute. split; [reflexivity|discriminate]. Qed.
+
 (* ================================================================ non-vacuity *)
 
 (* <b a="1">&'  *)
